@@ -128,12 +128,30 @@ fn round(p: &Pool, rc: &RoundCfg, seed: u64) -> Result<(Vec<Call>, Vec<crate::ps
                         };
                         ("render_to", got)
                     }
+                    2 => {
+                        // Template::render itself (the String-returning entry point), compared byte for byte
+                        let got = match &templates[ti] {
+                            Some(t) => match crate::mon::guard(|| t.render(&datas[di])) {
+                                Ok(Ok(s)) => {
+                                    if std::str::from_utf8(s.as_bytes()).is_ok() {
+                                        format!("ok:{s}")
+                                    } else {
+                                        "bad-utf8".to_string()
+                                    }
+                                }
+                                Ok(Err(e)) => format!("err:{}", crate::exec::first_line(&e)),
+                                Err(p) => format!("panic:{}", p.key()),
+                            },
+                            None => "parse-error".to_string(),
+                        };
+                        ("render", got)
+                    }
                     _ => {
                         let got = match &templates[ti] {
                             Some(t) => render(t, &datas[di]).summary_with_error(),
                             None => "parse-error".to_string(),
                         };
-                        ("render", got)
+                        ("render_to+render", got)
                     }
                 };
                 let ret = stamp();
